@@ -1,7 +1,7 @@
 (* Entry points of the executable model, by name.  Used both by the extracted
    OCaml driver and by vm_compute in generated cases files. *)
 From Coq Require Import ZArith QArith List String Bool.
-From SKC Require Import Model.Val Base.QBool Base.QList Base.QRank Model.Dominance Model.Agg Model.Electre Model.Result Model.Select Model.Transform Model.Weights Model.Filters Model.Untie Model.Diff Model.Pipeline.
+From SKC Require Import Model.Val Base.QBool Base.QList Base.QRank Model.Dominance Model.Agg Model.Electre Model.Result Model.Select Model.Transform Model.Weights Model.Filters Model.Untie Model.Diff Model.Pipeline Model.Impute.
 Import ListNotations.
 Local Open Scope string_scope.
 
@@ -254,6 +254,13 @@ Definition run_unique_names (ns : list (list Z)) : val := eL (eL eZ) (unique_nam
 Definition run_copy_with (a : list (Z * Z) * list (Z * Z)) : val :=
   eL (fun kv => VL [eZ (fst kv); eZ (snd kv)]) (copy_with (fst a) (snd a)).
 
+(* ---- C15: SimpleImputer on columns of optional cells ------------------------------------------- *)
+Definition run_simple_impute (a : Z * Q * list (list (option Q))) : val :=
+  let '(code, v, columns) := a in
+  let s := if (code =? 0)%Z then SMean else if (code =? 1)%Z then SMedian
+           else if (code =? 2)%Z then SMode else SConst v in
+  VL [eTable eQ (simple_impute s columns); eL (fun c => eQ (fill_value s c)) columns].
+
 Definition dispatch (fn : string) (arg : val) : val :=
   if fn =? "dominance" then with_arg (dP2 (dL dB) dMatrix) run_dominance arg
   else if fn =? "rank" then with_arg (dP2 dB (dL dQ)) run_rank arg
@@ -275,6 +282,7 @@ Definition dispatch (fn : string) (arg : val) : val :=
   else if fn =? "diff" then with_arg (dP5 dQ dQ dB dObj dObj) run_diff arg
   else if fn =? "unique_names" then with_arg (dL (dL dZ)) run_unique_names arg
   else if fn =? "copy_with" then with_arg (dP2 (dL (dP2 dZ dZ)) (dL (dP2 dZ dZ))) run_copy_with arg
+  else if fn =? "simple_impute" then with_arg (dP3 dZ dQ (dL (dL (dO dQ)))) run_simple_impute arg
   else if fn =? "wsm" then with_arg dDM run_wsm arg
   else if fn =? "ratio" then with_arg dDM run_ratio arg
   else if fn =? "refpoint" then with_arg dDM run_refpoint arg
